@@ -343,8 +343,10 @@ class HypervGates(MutantSuite):
 
     def generate(self, rng, tier):
         out = []
-        for fn in ("test.vmcx", "test.VMRS"):
-            buf = open(os.path.join(DATA, fn), "rb").read()
+        # each sample as it is (first header slot active) and with its two header slots exchanged (second slot active):
+        # the gate applies to the header that is used, wherever it lies
+        for fn, swap in (("test.vmcx", False), ("test.VMRS", False), ("test.vmcx", True), ("test.VMRS", True)):
+            buf = self._bytes({"file": fn, "swap": swap, "patch": []})
             h1, h2, act, rsig, osig, ktabs = self.parse(buf)
             a_off = 0 if act is h1 else 0x1000
             i_off = 0x1000 if act is h1 else 0
@@ -364,10 +366,17 @@ class HypervGates(MutantSuite):
             for v in (0x3FE, 0x3FF, 0x401, 0x402, 0, 0x10000, 0xFFFFFFFF):
                 out.append({"file": fn, "mut": ["version", v], "set": [a_off + 10, struct.pack("<I", v).hex()], "patch": [],
                             "must_reject": True})
+            for c in out:
+                if "swap" not in c:
+                    c["swap"] = swap
+                    if swap:
+                        c["mut"] = c["mut"] + ["slots-exchanged"]
         return out
 
     def _bytes(self, case):
         buf = bytearray(open(os.path.join(DATA, case["file"]), "rb").read())
+        if case.get("swap"):
+            buf[0:0x1000], buf[0x1000:0x2000] = buf[0x1000:0x2000], buf[0:0x1000]
         for off, m in case["patch"]:
             buf[off] ^= m
         if case.get("set"):
@@ -416,6 +425,9 @@ class EnvelopeGates(MutantSuite):
         for v in (0, 2, 0xFFFFFFFF):
             out.append({"mut": ["footer_version", v], "set": [fo + 4092, struct.pack("<I", v).hex()], "patch": [],
                         "must_reject": True, "f": dict(base, fv=v)})
+        # the same gates with verify=False (authentication switched off by the caller): what is supported does not change
+        for c in list(out):
+            out.append(dict(c, mut=c["mut"] + ["verify=False"], noverify=True))
         return out
 
     def impl(self, case):
@@ -428,6 +440,8 @@ class EnvelopeGates(MutantSuite):
             off, hx = case["set"]
             b = bytes.fromhex(hx)
             buf[off:off + len(b)] = b
+        if case.get("noverify"):
+            return self.attempt(lambda: Envelope(io.BytesIO(bytes(buf)), verify=False).cipher_name)
         return self.attempt(lambda: Envelope(io.BytesIO(bytes(buf))).cipher_name)
 
     def coq_term(self, case):
